@@ -164,6 +164,9 @@ def explore_config(args):
            'states': 0, 'transitions': 0, 'post': None, 'capped': False}
     failed_kinds = set()
     records = []
+    known = load_known()
+    prop = getattr(mod, 'PROPERTY', '')
+    stop_early = False
     want_records = hasattr(mod, 'post')
     validate_every = opts.get('validate_every', 1)
     max_validate = opts.get('max_validate', 40)
@@ -189,6 +192,11 @@ def explore_config(args):
                 conf = replay_failure(mod, cfg, kind, values, decisions)
                 res['failures'].append({'kind': kind, 'detail': detail, 'values': {k: str(v) for k, v in values.items()},
                                         'decisions': decisions, 'confirmed': conf})
+                if conf.get('reproduced') and match_known(known, prop, cfg, kind) is None:
+                    stop_early = True    # a new, replayed violation: no need to finish this configuration
+            if stop_early:
+                res['stopped_early'] = True
+                break
             if want_records:
                 records.append((list(eng.log), True))
             # translation validation of the engine on this path
@@ -211,7 +219,7 @@ def explore_config(args):
             if len(res['samples']) < 1:
                 res['samples'].append({'cfg': cfg, 'output': _j(show(out)), 'draws': [_j(show(list(ent))) for ent in eng.log if ent[0] != 'cmp'][:12],
                                        'path_condition_size': len(eng.pc)})
-        if want_records and not res['capped']:
+        if want_records and not res['capped'] and not stop_early:
             res['post'] = mod.post(cfg, records, eng)
     except Inconclusive as e:
         res['inconclusive'] = '%s: %s' % (type(e).__name__, str(e)[:300])
